@@ -14,7 +14,8 @@ in the log. The model below is the part of flow.go that decides which flow-level
   and only then `handle(ctx)` starts the goroutines of `g₁ … g_k` (`flow.go`, the comment calls this order
   "extremely important");
 * `completeAction` / `noAction` / no effective flow / terminate message: `Send(TerminationTrace{f})`, return;
-* cancellation, `ExitMode`, nowhere to flow: return without a `TerminationTrace`;
+* cancellation (`case <-ctx.Done()` of the flow's `select`): `Send(CancellationFlowTrace{f})`, return;
+* `ExitMode`, nowhere to flow, cancellation while waiting for an error handler: return without a final trace;
 * a flow created by something other than a `FlowTrace` announcement (start event, boundary / catch event flow):
   `root`;
 * `CeaseFlowTrace`: sent by the completion monitor after `flowWaitGroup.Wait()` returned, i.e. when every flow
@@ -52,7 +53,8 @@ inductive FAct
   | send (f : Nat)                          -- flow f's next deterministic `Send` (newflow / visit / visit target / FlowTrace)
   | move (f : Nat) (n' : Nat) (ts : List Nat) -- flow f at its node got a flowAction: target n', additional flows at ts
   | term (f : Nat)                          -- `TerminationTrace`, return
-  | die (f : Nat)                           -- return without `TerminationTrace`
+  | die (f : Nat)                           -- `CancellationFlowTrace`, return
+  | quit (f : Nat)                          -- return without a final trace
   | other                                   -- a trace the grammar does not constrain, from any goroutine
   | cease                                   -- the completion monitor
 deriving Repr
@@ -90,6 +92,10 @@ def fstep (s : FSt) : FAct → Option FSt
     | .at _ => some { s.setPhase f .dead with log := s.log ++ [.term f] }
     | _ => none
   | .die f =>
+    match s.phase f with
+    | .at _ => some { s.setPhase f .dead with log := s.log ++ [.cancel f] }
+    | _ => none
+  | .quit f =>
     match s.phase f with
     | .at _ => some { s.setPhase f .dead with log := s.log ++ [.other] }
     | _ => none
